@@ -79,8 +79,8 @@ Proof. exact compact_covers_sound. Qed.
 
 (* all histories (sibling / nested tables as handles, raw access, batches, snapshots): the model
    run equals the specification run, in which a table is literally the prefix view *)
-Theorem C24_histories : forall ideal s0 ss0 ops, R s0 ss0 -> Forall op_wf ops ->
-  map erase (run ideal s0 ops) = spec_run ss0 ops.
+Theorem C24_histories : forall lsafe ideal s0 ss0 ops, R s0 ss0 -> Forall op_wf ops ->
+  map erase (run lsafe ideal s0 ops) = spec_run lsafe ss0 ops.
 Proof. exact run_refines. Qed.
 
 (* non-vacuity *)
